@@ -65,9 +65,9 @@ def gen_curves(ctx):
     rng = ctx.rng
     th = ctx.tier == "thorough"
     cases, weights, keysets = [], [], []
-    ncurves = 4000 if th else 80
+    ncurves = 4000 if th else 120
     for ci in range(ncurves):
-        n = rng.choice([2, 2, 3, 3, 4, 5, 6, 7, 8, 9, 10, 11, 12])
+        n = rng.choice([2, 2, 3, 3, 4, 5, 6, 7, 8, 9, 10, 11, 12, 13, 16, 17, 24, 33])
         spacing, ks = cr.gen_keys(rng, n)
         vclass, ys = cr.gen_values(rng, n)
         rule = rng.choice([0, 0, 1, 1, 2, 2, 3, 4]) if rng.random() > 0.03 else 5
